@@ -268,6 +268,9 @@ class Flyer(Base):
         super().__init__(name, rec, **kw)
         self.nevents = nevents
 
+    def prepare(self, value):
+        return self._status("prepare")
+
     def kickoff(self):
         return self._status("kickoff")
 
